@@ -24,6 +24,10 @@ def run(chk, args):
         # player counts beyond 6: 2^n passes 64 (seeds C04-d, C08-d: a 64-bit key over coalitions silently wraps there)
         {"family": "sam", "ns": "7,8", "count": 3 if q else 16, "length": 10, "reps": "0,1,3"},
         {"family": "float_sam", "ns": "7", "count": 3 if q else 16, "length": 10, "reps": "0,2"},
+        {"family": "sam", "ns": "9", "count": 2 if q else 6, "length": 6, "reps": "0,1"},
+        # knowledge sets (searched for with the real code) on which the second sweep matters: here r = 1 is strictly tighter than r = 0,
+        # so "never loosens when the repetition count is raised" can fail for the registered long runs
+        {"family": "sam_sensitive", "ns": "7", "count": 3 if q else 12, "length": 6, "reps": "0,1,2,100,1000", "interleave": 0},
     ])
     from common_bounds import replay_bounds_behaviours
     replay_bounds_behaviours(chk, "SAM3", {"N": 3, "cls": "SAM", "sing": "m3to0", "slacks": "m3to0", "computers": {"sam"}, "reps": {0, 1, 2, 3}}, 50 if q else 400)
